@@ -1,8 +1,111 @@
 (** * C03 -- in all-compliant mode every instance conforms to its extracted shape *)
 From Coq Require Import List Ascii String ZArith NArith Bool.
-From Shexer Require Import Lib.PyStr Lib.Dict Gen.Consts Spec.Rdf Spec.ShexSem Model.Tracker Model.Profiler
-     Model.Freq Model.FreqInst Model.Shexing Model.Run Model.SchemaOf Proofs.ConformProofs.
+From Shexer Require Import Lib.PyStr Lib.Dict Lib.Bin64 Gen.Consts Spec.Rdf Spec.ShexSem Model.Tracker Model.Profiler
+     Model.Freq Model.FreqInst Model.Shexing Model.Run Model.SchemaOf Proofs.Bin64Round Proofs.FreqLaws Proofs.ConformProofs.
 Import ListNotations.
+
+(** ** T1 -- switching the mode off never changes a cardinality.
+
+    For ALL profiles, thresholds, configurations and both frequency algebras:
+    with [x_all_compliant = false] no output statement carries '?' or '*';
+    every output statement [s] is a selected statement [v] of its class
+    ([class_selected]: the result of the two merges on the candidates
+    [base_statements]) with the same direction, property, types, count and
+    probability, and its cardinality is [v]'s, or '+' for an exact [{k>1}]
+    under [disable_exact_cardinality] ([gen_card]); [v] itself (unless it is a
+    disjunction or the NONLITERAL statement) is a candidate up to comments. *)
+Theorem C03_mode_off_keeps_cards : forall fa cfg thr P C shapes,
+  x_all_compliant cfg = false -> shex fa cfg thr P C = inl shapes ->
+  forall sh s, In sh shapes -> In s (sh_stmts sh) ->
+    s_card s <> COpt /\ s_card s <> CStar /\
+    exists ce sel v, In ce P /\ sh_class sh = fst ce /\
+      class_selected fa cfg thr C ce = inl sel /\ In v sel /\
+      s_inv s = s_inv v /\ s_prop s = s_prop v /\ s_types s = s_types v /\ s_choice s = s_choice v /\
+      s_nocc s = s_nocc v /\ s_prob s = s_prob v /\
+      s_card s = gen_card cfg (s_card v) /\ base_card (s_card v) /\
+      (s_choice v = false -> s_type v <> c_NONLITERAL_ELEM_TYPE ->
+       exists b, In b (class_base fa cfg thr C ce) /\ same_core v b).
+Proof. exact mode_off_keeps_cards. Qed.
+Print Assumptions C03_mode_off_keeps_cards.
+
+(** ** T2 -- where a '?' comes from (shexing level, all inputs).
+
+    With [keep_less_specific]: an output statement with cardinality '?' (not a
+    disjunction, not NONLITERAL) exists only in all-compliant mode with
+    [allow_opt_cardinality]; it is a statement of the instantiation property,
+    or its class has the two candidates [{1}] and ['+'] of that (direction,
+    property, type) with EQUAL frequencies, the exact one having won by the
+    "useless positive closure" rule.  [plus_present]: every exact candidate of
+    an ordinary property has a '+' sibling (a fact about profiles,
+    [plus_present_class] derives it from [pd_wf]). *)
+Theorem C03_relaxed_card_sound : forall fa cfg thr P C shapes,
+  x_keep_less_specific cfg = true -> shex fa cfg thr P C = inl shapes ->
+  (forall ce inv, In ce P -> plus_present (x_tau cfg) (class_dir fa cfg thr C ce inv)) ->
+  forall sh s, In sh shapes -> In s (sh_stmts sh) ->
+    s_card s = COpt -> s_choice s = false -> s_type s <> c_NONLITERAL_ELEM_TYPE ->
+    x_all_compliant cfg = true /\ x_allow_opt cfg = true /\
+    (s_prop s = x_tau cfg \/
+     (x_discard_useless cfg = true /\
+      exists ce a b, In ce P /\ sh_class sh = fst ce /\ sh_n sh = class_cnt C ce /\
+        In a (class_base fa cfg thr C ce) /\ In b (class_base fa cfg thr C ce) /\
+        s_inv a = s_inv s /\ s_inv b = s_inv s /\ s_prop a = s_prop s /\ s_prop b = s_prop s /\
+        s_types a = s_types s /\ s_type b = s_type s /\ s_card a = CExact 1 /\ s_card b = CPlus /\
+        (feqb fa (pv fa (class_cnt C ce) a) (pv fa (class_cnt C ce) b) = true \/
+         feqb fa (pv fa (class_cnt C ce) b) (pv fa (class_cnt C ce) a) = true))).
+Proof. exact relaxed_card_sound. Qed.
+Print Assumptions C03_relaxed_card_sound.
+
+(** ** T3 -- part (a) of [sat]: every cardinality holds for every instance.
+
+    [insts_of c] are the instances of class [c]; [cntf c i inv p k] is the
+    number of values of instance [i] for property [p] in direction [inv] that
+    carry type key [k].  [pd_wf] says the class profile holds, for every entry
+    (p, k, cardinality key) the number of instances that count for it
+    ([ck_ok], Spec/Counts.v's reading), and that an exact entry has a '+'
+    sibling -- the profile characterisation P1 (Proofs/ProfileChar.v) proves
+    it of the profiler model.  Then, in all-compliant mode with
+    [keep_less_specific], for every output statement (not a disjunction, not
+    NONLITERAL) and EVERY instance: an exact [{k}] means exactly k values, '+'
+    at least one, '?' at most one. *)
+Definition C03_profile_wf (cfg : scfg) (A : Type) (insts_of : str -> list A)
+           (cntf : str -> A -> bool -> str -> str -> N) (P : cprofile) (C : ccounts) (okN : N -> Prop) : Prop :=
+  forall ce, In ce P ->
+     class_cnt C ce = N.of_nat (List.length (insts_of (fst ce))) /\ okN (class_cnt C ce) /\
+     pd_wf cfg A (insts_of (fst ce)) (cntf (fst ce)) false (c_direct (snd ce)) /\
+     (x_inverse cfg = true -> pd_wf cfg A (insts_of (fst ce)) (cntf (fst ce)) true (c_inverse (snd ce))) /\
+     (forall i inv k, In i (insts_of (fst ce)) -> (cntf (fst ce) i inv (x_tau cfg) k <= 1)%N).
+
+Theorem C03_cardinalities : forall cfg (A : Type) insts_of cntf (thr : F QAlg) P C shapes,
+  x_keep_less_specific cfg = true -> x_all_compliant cfg = true -> wf_frac thr ->
+  C03_profile_wf cfg A insts_of cntf P C (fun d => 0 < d)%N ->
+  shex QAlg cfg thr P C = inl shapes ->
+  forall sh s, In sh shapes -> In s (sh_stmts sh) -> s_choice s = false -> s_type s <> c_NONLITERAL_ELEM_TYPE ->
+  forall i, In i (insts_of (sh_class sh)) ->
+    card_holds (s_card s) (cntf (sh_class sh) i (s_inv s) (s_prop s) (s_type s)).
+Proof. exact (stage_cardinalities QAlg _ _ QAlg_laws). Qed.
+Print Assumptions C03_cardinalities.
+
+(** the same under the binary64 algebra the implementation computes with (class sizes below 2^53) *)
+Theorem C03_cardinalities_binary64 : forall cfg (A : Type) insts_of cntf (thr : F BAlg) P C shapes,
+  x_keep_less_specific cfg = true -> x_all_compliant cfg = true -> wf_frac thr ->
+  C03_profile_wf cfg A insts_of cntf P C okN53 ->
+  shex BAlg cfg thr P C = inl shapes ->
+  forall sh s, In sh shapes -> In s (sh_stmts sh) -> s_choice s = false -> s_type s <> c_NONLITERAL_ELEM_TYPE ->
+  forall i, In i (insts_of (sh_class sh)) ->
+    card_holds (s_card s) (cntf (sh_class sh) i (s_inv s) (s_prop s) (s_type s)).
+Proof. exact (stage_cardinalities BAlg _ _ BAlg_laws). Qed.
+Print Assumptions C03_cardinalities_binary64.
+
+(** side claim of the property: '?' only where no instance has two matching values *)
+Theorem C03_opt_at_most_one : forall cfg (A : Type) insts_of cntf (thr : F BAlg) P C shapes,
+  x_keep_less_specific cfg = true -> x_all_compliant cfg = true -> wf_frac thr ->
+  C03_profile_wf cfg A insts_of cntf P C okN53 ->
+  shex BAlg cfg thr P C = inl shapes ->
+  forall sh s, In sh shapes -> In s (sh_stmts sh) -> s_choice s = false -> s_type s <> c_NONLITERAL_ELEM_TYPE ->
+  s_card s = COpt ->
+  forall i, In i (insts_of (sh_class sh)) -> (cntf (sh_class sh) i (s_inv s) (s_prop s) (s_type s) <= 1)%N.
+Proof. exact (opt_at_most_one BAlg _ _ BAlg_laws). Qed.
+Print Assumptions C03_opt_at_most_one.
 
 (** ** non-vacuity: a schema-consistent graph (two classes, a reference, a
     literal property with per-instance cardinalities 1 and 2, an instance
